@@ -1,6 +1,7 @@
 import IsoMdl.Model.Session
 import IsoMdl.Spec.Iv
 import IsoMdl.Spec.Device
+import IsoMdl.Spec.Channel
 namespace IsoMdl.Driver
 open IsoMdl IsoMdl.Session
 
@@ -80,6 +81,7 @@ def lastIv (w w' : World) : String :=
     | none => "iv=none"
 
 def sessOp (w? : Option World) : List String → Option (Option World × String)
+  | ["sess.peek"] => w?.map fun w => (some w, summary w)
   | ["sess.new", id] => id.toNat?.map fun n => let w := World.established n; (some w, summary w)
   | "sess.setCounters" :: rest =>
     match w?, rest.mapM (·.toNat?) with
@@ -150,6 +152,13 @@ def c13Op : List String → Option String
   | ["spec.c13.submit", b, a, o, sig] => do
       let b ← parseDevState b; let a ← parseDevState a; let o ← parseOptNat o; let sig ← sig.toNat?
       pure (toString (submitOk b a o sig))
+  | _ => none
+
+def c06Op : List String → Option String
+  | ["spec.c06", honest, outcome, unchanged, hasData] =>
+      some (toString (Spec.rejectInertOk (honest == "t") outcome (unchanged == "t") (hasData == "t")))
+  | ["spec.c06w", outcome, unchanged, hasData] =>
+      some (toString (Spec.rejectOrUnparsedOk outcome (unchanged == "t") (hasData == "t")))
   | _ => none
 
 /-- leaf function (generated) and the ISO predicate on real observations -/
